@@ -1107,6 +1107,8 @@ void SPxSolverBase<R>::setType(Type tp)
       , displayLine(0)
       , displayFreq(200)
       , sparsePricingFactor(SOPLEX_SPARSITYFACTOR)
+      , solvingForBoosted(false)
+      , storeBasisSimplexFreq(10000)
       , fullPerturbation(false)
       , printBasisMetric(0)
       , unitVecs(0)
@@ -1238,6 +1240,8 @@ void SPxSolverBase<R>::setType(Type tp)
          displayLine = base.displayLine;
          displayFreq = base.displayFreq;
          sparsePricingFactor = base.sparsePricingFactor;
+         solvingForBoosted = base.solvingForBoosted;
+         storeBasisSimplexFreq = base.storeBasisSimplexFreq;
          fullPerturbation = base.fullPerturbation;
          printBasisMetric = base.printBasisMetric;
          unitVecs = base.unitVecs;
@@ -1447,6 +1451,8 @@ void SPxSolverBase<R>::setType(Type tp)
       , displayLine(base.displayLine)
       , displayFreq(base.displayFreq)
       , sparsePricingFactor(base.sparsePricingFactor)
+      , solvingForBoosted(base.solvingForBoosted)
+      , storeBasisSimplexFreq(base.storeBasisSimplexFreq)
       , fullPerturbation(base.fullPerturbation)
       , printBasisMetric(base.printBasisMetric)
       , unitVecs(base.unitVecs)
